@@ -72,8 +72,13 @@ IsCand(t, ov) ==
 Minimal(S) == {c \in S : \A d \in S : Len(d) >= Len(c)}
 
 \* ---------------------------------------------------------------- pass 0
+\* the unit shown next to a parameter (that of the name the user sets, vector members included) is the one written
+\* in the row of the definition's table it comes from
+ShownNotDeclared(t) == {t.rows[i].name : i \in {j \in 1..Len(t.rows) : t.rows[j].units # t.rows[j].decl}}
 DoTable(e) ==
-    [st |-> St0, bad |-> <<>>,
+    [st |-> St0,
+     bad |-> IF ShownNotDeclared(e) # {} THEN << <<"shown-unit-differs-from-declared", ToString(ShownNotDeclared(e))>> >>
+             ELSE <<>>,
      say |-> << <<"ELIGIBLE", ToJson([model |-> e.model, eligible |-> Eligible(e),
                                        why |-> ToString(WhyNot(e))])>> >>]
 
